@@ -203,6 +203,7 @@ type Exec struct {
 	touchedByFailed map[string]bool // entities named by messages of a failed multi-message transaction
 	KeepApps     bool
 	lastBlockParams string
+	exportedCP   *tmConsensusParams
 	OnCommit     func(h int64) // race sub-check: called on the block goroutine after every Commit of the reference replica
 }
 
@@ -477,6 +478,7 @@ func (e *Exec) produceBlock(st *Step) {
 		return
 	}
 	r0.inBlock = true
+	e.legacyState(r0.Node, h)
 	if hs := CustomDumpHashes(r0.DeliverStores()); h > e.H0+1 && !sameHashes(preHashes, hs) {
 		prop := "C10"
 		if isUpgradeBlock {
@@ -676,6 +678,22 @@ func (e *Exec) endAndCommitR0(blk *Block, rec *BlockRec, isUpgradeBlock bool) {
 		for _, r := range e.R {
 			e.dumpUpgradeInfo(r, rec.Plan)
 		}
+	}
+}
+
+// legacyState: the simulated chain starts at genesis with the current binary, a live chain has come through the
+// earlier releases. What those left behind in the state and still matters to an upgrade handler is written in the first
+// block of every replica (the same bytes everywhere): the module version map still lists the modules that a later
+// release removed (v2.0.5 recorded "wasm": 1, v2.0.6 deleted its store; x/upgrade never deletes version-map entries).
+func (e *Exec) legacyState(n *Node, h int64) {
+	if !e.S.Config.LegacyVersionMap || h != e.H0+1 {
+		return
+	}
+	_, _ = n.guard("legacyState", func() {
+		n.App.UpgradeKeeper.SetModuleVersionMap(n.DeliverCtx(), map[string]uint64{"wasm": 1})
+	})
+	if n.ID == 0 {
+		e.Stats.Inc("fault.upgrade.legacy_version_map")
 	}
 }
 
@@ -1180,6 +1198,24 @@ func (e *Exec) deliverOnR0(p *pendingTx, blk *Block, rec *BlockRec) {
 		e.BuiltMsgs[p.ID] = bt.Msgs
 	}
 	e.checkSignBytes(p.ID, bt)
+	for _, m := range bt.Msgs {
+		if !IsCustomMsg(m) {
+			continue
+		}
+		if !passesValidateBasic(m) {
+			// a signature over a message that every node refuses statelessly authorises nothing: encodings of such
+			// messages (unset oneofs rendered as "", ...) are not judged
+			continue
+		}
+		switch v := signBytesFaithful(m); {
+		case v == "":
+			e.Stats.Inc("signbytes.faithful")
+		case strings.HasPrefix(v, "undecodable"):
+			e.Stats.Inc("signbytes.undecodable." + sdk.MsgTypeURL(m))
+		default:
+			e.viol("C14", "signbytes.not_faithful", "signbytes-faithful:"+sdk.MsgTypeURL(m), "%s (message %s)", v, msgJSON(e.Env, m))
+		}
+	}
 	e.recomputeSignBytes(e.R[(p.ID)%len(e.R)].Node, p.ID, bt)
 	e.clientSideValidate(p.ID, bt)
 
@@ -1751,6 +1787,15 @@ func (e *Exec) recomputeSignBytes(n *Node, id int, bt *BuiltTx) {
 			return
 		}
 	}
+}
+
+func passesValidateBasic(m sdk.Msg) (ok bool) {
+	defer func() {
+		if recover() != nil {
+			ok = false
+		}
+	}()
+	return m.ValidateBasic() == nil
 }
 
 func sha256sum(b []byte) []byte { s := sha256.Sum256(b); return s[:] }
